@@ -167,10 +167,14 @@ VALID_SETS = {
 def paths_of(prog: Program, fn: FuncInfo, params: list[str] | None = None, mode: str = "value") -> list[PathSum]:
     """Every path through `fn` (see _c16_util); what cannot be interpreted fails closed."""
     try:
-        ps = Exec(prog, fn, bool_attrs={FLAG}).run(params, mode)
+        ex = Exec(prog, fn, bool_attrs={FLAG}, inline_all=True, max_depth=6)
+        ps = ex.run(params, mode)
     except Unsupported as exc:
         raise AnalysisError(f"{fn.qual}: cannot be interpreted path by path ({exc})") from exc
     ps = [p for p in ps if p.exit != "raise"]
+    blind = sorted({c for p in ps for c in ex.opaque_private_calls(p)})
+    if blind:
+        raise AnalysisError(f"{fn.qual}: cannot see through {blind} (not interpretable path by path)")
     if not ps:
         raise AnalysisError(f"{fn.qual}: no normal path")
     return ps
@@ -729,6 +733,9 @@ def check_pool(run: Run, prog: Program) -> None:
     ex = Exec(prog, fn, inline_all=True, max_depth=6)
     paths, _loop, _chain, _entry = iteration_paths(
         ex, fn, ex.initial(), lambda n: isinstance(n, ast.AsyncFor), "STATUS", "status loop")
+    blind = sorted({c for p in paths for c in ex.opaque_private_calls(p)})
+    if blind:
+        raise AnalysisError(f"{fn.qual}: cannot see through {blind} (not interpretable path by path)")
     ident = "STATUS.component_id"
 
     def possible(p: PathSum) -> set[str]:
